@@ -445,6 +445,25 @@ func (f *Filter) Walk(rest, path Expr, nodes []any, cb func(path Expr, nodes []a
 					}
 				}
 			}
+		case reflect.Struct:
+			// The fields are the members, as for a wildcard.
+			rt := rv.Type()
+			for i := 0; i < rv.NumField(); i++ {
+				fv := rv.Field(i)
+				if !fv.CanInterface() {
+					continue
+				}
+				v := fv.Interface()
+				if f.Match(v) {
+					path[len(path)-1] = Child(rt.Field(i).Name)
+					nodes[len(nodes)-1] = v
+					if 0 < len(rest) {
+						rest[0].Walk(rest[1:], path, nodes, cb)
+					} else {
+						cb(path, nodes)
+					}
+				}
+			}
 		}
 	}
 }
